@@ -70,6 +70,10 @@ type Subscription struct {
 	// It must be safe to call the function from multiple goroutines and the function
 	// must be idempotent.
 	unsub func()
+
+	// snapshotIndex is the index of the end-of-snapshot event this subscription
+	// has returned (zero before that). It is only accessed by Next.
+	snapshotIndex uint64
 }
 
 // SubscribeRequest identifies the types of events the subscriber would like to
@@ -129,6 +133,22 @@ func (s *Subscription) Next(ctx context.Context) (Event, error) {
 		}
 		s.currentItem = next
 		if len(next.Events) == 0 {
+			continue
+		}
+		switch first := next.Events[0]; {
+		case first.IsEndOfSnapshot():
+			s.snapshotIndex = first.Index
+		case !first.IsFramingEvent() && first.Index != 0 && first.Index < s.snapshotIndex:
+			// A write transaction publishes its events only after it has been
+			// committed to memdb, and Publish merely queues them for the publisher
+			// goroutine. The snapshot this subscription started with may therefore
+			// already contain writes whose events reach the topic buffer after the
+			// snapshot was spliced onto it. Such events are older than the snapshot:
+			// delivering them would make the index go backwards and would apply
+			// them on top of a newer state. (An event at exactly the snapshot index
+			// is delivered: applying it again is idempotent, and several
+			// transactions may share a raft index. Events that carry no index
+			// cannot be ordered and are delivered as before.)
 			continue
 		}
 		return newEventFromBatch(s.req, next.Events), nil
